@@ -67,8 +67,17 @@ def task_pairs(arg):
         for x, y in itertools.zip_longest(rows_b, rows_a):
             inter += [r for r in (x, y) if r is not None]
         placements["interleaved"] = inter
+        # the way users stack households: pd.concat keeps each household's own row labels (0.. repeating), or persons are labelled by p_id
+        placements["before-rot0/kept-labels"] = placements["before-rot0"]
+        placements["before-rot0/p_id-labels"] = placements["before-rot0"]
+        placements["after/kept-labels"] = placements["after"]
         for pl, rows in placements.items():
             df = popgen.frame(rows)
+            if pl.endswith("/kept-labels"):
+                first = nb if pl.startswith("before") else len(rows_a)
+                df.index = list(range(first)) + list(range(len(rows) - first))
+            elif pl.endswith("/p_id-labels"):
+                df.index = df["p_id"].to_numpy() * 3 + 1
             case = {"date": date_iso, "A": name_a, "B": name_b, "placement": pl}
             out.state((date_iso, name_a, name_b, pl))
             try:
@@ -80,9 +89,12 @@ def task_pairs(arg):
                     out.violation(f"joint-simulation-raises:{type(e).__name__}", case, repr(e)[:300])
                 continue
             out.step()
+            if len(joint) != len(df):
+                out.violation("joint-result-row-count", case, f"{len(joint)} result rows for {len(df)} persons")
+                continue
             mask = df["p_id"].isin(keys).to_numpy()
             sub = joint[mask].reset_index(drop=True)
-            sub_keys = df["p_id"][mask].tolist()
+            sub_keys = df["p_id"].to_numpy()[mask].tolist()
             diffs = sim.compare_results(alone, sub, keys, sub_keys, ulps=0, check_dtype=True)
             for col, kind, detail in diffs:
                 out.violation(f"joint-vs-alone:{kind}:{col}", {**case, "column": col}, f"{col} of {name_a} changes ({kind}) when simulated with {name_b} ({pl}) on {date_iso}: {detail}")
@@ -323,7 +335,8 @@ def replay(case):
         return not part["violations"], "; ".join(v[2] for v in part["violations"][:3])
     if "A" in case and "B" in case:
         rows_a, rows_b = popgen.library_rows(case["A"], year), popgen.library_rows(case["B"], year)
-        pl = case["placement"]
+        pl_full = case["placement"]
+        pl = pl_full.split("/")[0]
         if pl == "after":
             rows = rows_a + rows_b
         elif pl.startswith("before-rot"):
@@ -334,9 +347,14 @@ def replay(case):
             for x, y in itertools.zip_longest(rows_b, rows_a):
                 rows += [r for r in (x, y) if r is not None]
         dfa, df = popgen.frame(rows_a), popgen.frame(rows)
+        if pl_full.endswith("/kept-labels"):
+            first = len(rows_b) if pl.startswith("before") else len(rows_a)
+            df.index = list(range(first)) + list(range(len(rows) - first))
+        elif pl_full.endswith("/p_id-labels"):
+            df.index = df["p_id"].to_numpy() * 3 + 1
         alone, joint = sim.sim_all(dfa, date_iso), sim.sim_all(df, date_iso)
         mask = df["p_id"].isin(dfa["p_id"]).to_numpy()
-        diffs = sim.compare_results(alone, joint[mask].reset_index(drop=True), dfa["p_id"].tolist(), df["p_id"][mask].tolist())
+        diffs = sim.compare_results(alone, joint[mask].reset_index(drop=True), dfa["p_id"].tolist(), df["p_id"].to_numpy()[mask].tolist())
         return not diffs, str(diffs[:5])
     return True, "re-run the check"
 
@@ -367,7 +385,7 @@ def run(tier):
         rep.merge(part)
     check_id_arithmetic(rep)
     check_large_arrays(rep)
-    rep.bound = {"dates": dates, "households": names, "placements": "B after A; B before A in every rotation of B (each B row first once); interleaved",
+    rep.bound = {"dates": dates, "households": names, "placements": "B after A; B before A in every rotation of B (each B row first once); interleaved; stacked frames that keep each household's own row labels / labelled by p_id",
                  "relabellings": list(RELABEL), "big_table_rows": "4400 (thorough also 9000), A placed last; 1030 (thorough also 2060, 4400) with A first / split across both ends / reversed and spread", "max_p_id": 6007 * 160, "max_hh_id": 601 * 16}
     rep.assumptions = ["ids are kept below 10^6 (p_id) / 10^4 (hh_id): numpy_groupies allocates max(id)+1 slots and derived ids are hh_id*100",
                        "comparison is bit-exact on every non-id node (joint vs alone keeps the evaluation order within A's groups)"]
